@@ -614,11 +614,9 @@ def run(chk):
         elif m["wf"] and oc == "illegal":
             chk.report("impl-differs-from-spec", case, impl={"outcome": oc, "validator": v[1]}, model=m,
                        law="a WF definition never fails as an Illegal State Machine (wf_no_illegal_machine tied to the engine)")
-        elif m["ill"] and oc == "SUCCEEDED" and v[1] != []:
-            # a definition the validator rejects: find_state also searches nested scopes (a transition across
-            # scopes "works" on the engine, the model stops at site (a)) — the property is silent there
-            chk.dist("ill.rejected_definition_engine_more_lenient")
         elif m["ill"] and oc == "SUCCEEDED":
+            # (also for definitions the validator rejects: since f2516e3 the engine refuses transitions across scopes,
+            # which used to "work" because find_state searches the whole definition)
             chk.report("impl-differs-from-spec", case, impl={"outcome": oc, "validator": v[1]}, model=m,
                        law="the model reaches an illegal site on a run the engine completes successfully")
 
